@@ -45,6 +45,8 @@ func init() {
 }
 
 type enumCtx struct {
+	hb  *hbSlot
+	cur []byte
 	r   *Run
 	st  *Stats
 	id  int
@@ -62,6 +64,18 @@ func enumStrings(r *Run, sigma []byte, minLen, maxLen int, prefix []byte, fn0 fu
 				workerPanic(r, fid, string(s), fmt.Sprintf("%q", s), p)
 			}
 		}()
+		// heartbeat: one registration per worker, the current string is published by a plain store (the watchdog
+		// decides on lack of progress of the worker's counters, see watchdog.go)
+		c.cur = s
+		if c.hb == nil {
+			c.hb = newHB()
+			c.hb.st = c.st
+			c.hb.begin(func() *Violation {
+				in := append([]byte(nil), c.cur...)
+				cs := &Case{Kind: "worker-panic", Driver: "worker", Text: fmt.Sprintf("%q", in), Extra: map[string]any{"fn": fid, "arg": string(in)}}
+				return &Violation{Property: r.Prop, Site: "library-call", Detail: fmt.Sprintf("case %q", in), Case: cs}
+			})
+		}
 		fn0(c, s)
 	}
 	type job struct{ head []byte }
@@ -111,6 +125,9 @@ func enumStrings(r *Run, sigma []byte, minLen, maxLen int, prefix []byte, fn0 fu
 				}
 				rec(buf)
 			}
+			if c.hb != nil {
+				c.hb.end()
+			}
 			r.St.merge(c.st)
 		}(i)
 	}
@@ -131,6 +148,9 @@ func enumStrings(r *Run, sigma []byte, minLen, maxLen int, prefix []byte, fn0 fu
 	}
 	if hl > 0 {
 		short(append([]byte(nil), prefix...))
+	}
+	if c0.hb != nil {
+		c0.hb.end()
 	}
 	r.St.merge(c0.st)
 	for _, j := range jobs {
@@ -153,7 +173,16 @@ func parallelFor(r *Run, n int, fn0 func(c *enumCtx, i int)) {
 				workerPanic(r, fid, i, fmt.Sprintf("case #%d", i), p)
 			}
 		}()
+		if c.hb == nil {
+			c.hb = newHB()
+			c.hb.st = c.st
+		}
+		c.hb.begin(func() *Violation {
+			cs := &Case{Kind: "worker-panic", Driver: "worker", Text: fmt.Sprintf("case #%d", i), Extra: map[string]any{"fn": fid, "arg": i}}
+			return &Violation{Property: r.Prop, Site: "library-call", Detail: fmt.Sprintf("case #%d of this enumeration", i), Case: cs}
+		})
 		fn0(c, i)
+		c.hb.end()
 	}
 	ch := make(chan int, 256)
 	var wg sync.WaitGroup
